@@ -54,8 +54,11 @@ func (g *Generator) FuncToString(f *model.Function) string {
 		sb.WriteString(f.Src.FullType())
 	}
 
-	for _, args := range f.AdditionalArgs {
-		sb.WriteString(", ")
+	for i, args := range f.AdditionalArgs {
+		// With a receiver in return style, nothing precedes the first additional argument.
+		if 0 < i || f.Receiver == "" || f.DstVarStyle == model.DstVarArg {
+			sb.WriteString(", ")
+		}
 		sb.WriteString(args.Name)
 		sb.WriteString(" ")
 		sb.WriteString(args.FullType())
